@@ -11,6 +11,7 @@ mod oracle {
     pub mod dsp;
     pub mod reader;
 }
+mod debug;
 mod props;
 
 use common::Tier;
@@ -36,6 +37,7 @@ fn main() {
             props::run(&id, tier)
         }
         Some("replay") => props::replay(args.get(2).expect("replay file")),
+        Some("debug") => debug::run(&args[2..]),
         Some("child") => props::child(&args[2..]),
         _ => {
             crate::elog!("usage: jbv check <Cxx> [quick|thorough] | jbv replay <file>");
